@@ -144,17 +144,17 @@ PROPS = {
                            'exactly 1 without cache; composition untainted + requested = delta unless clamped (C07_remainder). Float layer: the model executes binary64 round-to-nearest-even on rationals (rne64) and is compared bit for bit (Float64bits) with Go on every case; '
                            'the statement "float result >= exact need" is false at extreme magnitudes (C05_float_short_witness, finding T2). Proved instead: for every rounding function obeying the standard model with unit round-off u (relative error <= u per operation, integers up to 2^53 exact) the value that is ceiled differs from the exact one by at most (n/T)(8uP+4uT) = 8u*N + 4u*n (C05_float_error; from zero: 4u*N, C05_from_zero_float_error), so the requested count is within one node of the exact minimal count whenever that budget is below 1 (C05_float_within_one, C05_from_zero_within_one); rne64, the function the driver executes and Go is compared with bit for bit, obeys the standard model with u = 2^-53 (StdModel_rne64, C05_rne64_within_one). Sufficiency of the float result: the exact value exceeds every integer below it by at least 1/(s*T), so whenever the budget is below that granularity - with u = 2^-53: (8N+4n)*s*T < 2^53 - the float pipeline never asks for fewer than the exact minimal count (C05_float_sufficient), and n + delta lies in [N, N+1], N = ceil(100R/(sT)) (C05_float_full_in_region; C05_rne64_full_in_region for the executed model). Outside that region the property is false (T2) and the exact-rational monitor decides each observed delta. From zero: within one node (C05_from_zero_within_one); sufficiency from zero is monitored, not proved.',
                 level_note=LEVEL_NOTE + ' Go float64 arithmetic = IEEE-754 binary64 RNE (checked bit-for-bit against the model on every run, not proved).'),
-    'C06': dict(level='proof', module='EscProofs.P.C06Starve',
+    'C06': dict(level='proof', module='EscProofs.P.C06Float',
                 streams=dict(quick=[('scenario', ['-dir', '@ROOT/corpus/C06']), ('hist', ['-n', 400, '-scans', 10, '-focus', 'bands']), ('hist', ['-n', 150, '-scans', 8, '-focus', 'rotate'])],
                              thorough=[('scenario', ['-dir', '@ROOT/corpus/C06']), ('hist', ['-n', 20000, '-scans', 12, '-focus', 'bands']), ('hist', ['-n', 5000, '-scans', 10, '-focus', 'rotate'])],
                              search=[('hist', ['-n', 1500, '-scans', 12, '-focus', 'bands']), ('hist', ['-n', 800, '-scans', 10, '-focus', 'rotate'])]),
                 aspects=['hist:taintadds', 'hist:untaints', 'hist:resize', 'hist:delta'], monitors=['C06'],
                 theorems=['Esc.P.C06_bands', 'Esc.P.C06_triggers', 'Esc.P.C06_triggers_off', 'Esc.P.C06_taint_rate', 'Esc.P.C06_idle_band',
                           'Esc.P.C06_up_never_taints', 'Esc.P.C06_down_never_adds', 'Esc.P.taintLoop_count_all_ok',
-                          'Esc.P.C06_starve_iff', 'Esc.P.C06_starve_scales_up'],
+                          'Esc.P.C06_starve_iff', 'Esc.P.C06_starve_scales_up', 'Esc.P.C06_float_bands', 'Esc.P.C06_rne64_bands'],
                 technique='Lean 4 theorem (band case analysis for any rounding function; exact taint count when no attempt fails; journal shape of the idle and scale-up branches) + differential correspondence at threshold neighbourhoods + exact-rational band oracle and documented-starve oracle as monitors',
                 level_text='C06_bands: the decision is -fast / -slow / 0 / scale-up formula according to where max(cpu%,mem%) (as computed) lies relative to the three thresholds (as converted), for every rounding function; C06_taint_rate: exactly min(rate, untainted - min) nodes are tainted when no attempt fails; '
-                           'C06_idle_band: decision 0 yields only reaping; C06_up_never_taints; C06_triggers: starve / max-age only raise the decision to >= 1; C06_starve_iff: the starve trigger computed from the largest-pending / largest-available digests is exactly the documented condition (option on, some pending pod asks in CPU or memory for more than any untainted node has left, untainted < max_nodes), so C06_starve_scales_up: under that condition the decision is >= 1 in every band. Which side of a threshold the *float* utilisation falls on within 2^-40 relative of it is not claimed: the monitor treats that neighbourhood as either-side. '
+                           'C06_idle_band: decision 0 yields only reaping; C06_up_never_taints; C06_triggers: starve / max-age only raise the decision to >= 1; C06_starve_iff: the starve trigger computed from the largest-pending / largest-available digests is exactly the documented condition (option on, some pending pod asks in CPU or memory for more than any untainted node has left, untainted < max_nodes), so C06_starve_scales_up: under that condition the decision is >= 1 in every band. C06_float_bands / C06_rne64_bands: for every rounding function obeying the standard model with u <= 2^-43 (binary64: 2^-53, proved for the executed rne64) the band decision is the one the EXACT utilisation max(100Rc/Cc, 100Rm/Cm) dictates whenever it is outside a relative neighbourhood of 2^-40 of a threshold; inside that neighbourhood either side is accepted (monitor likewise). '
                            'Tie: hist (requests placed at threshold*capacity/100 +-2) on taint/untaint/resize calls and the decision delta; band oracle on exact rationals over observed journals.',
                 level_note=LEVEL_NOTE),
     'C07': dict(level='proof', module='EscProofs.P.C07',
